@@ -151,7 +151,7 @@ func joinTokens(toks []ptok, rng *rand.Rand, base bool, edits int) string {
 				}
 			case "VNUMBER":
 				if rng.Intn(3) == 0 {
-					v = strings.Repeat("0", 1+rng.Intn(2)) + v
+					v = strings.Repeat("0", []int{1, 2, 1, 3, 19, 20, 21, 40}[rng.Intn(8)]) + v
 				}
 			case "SYMBOL":
 				if (i == 0 || toks[i-1].T != "UNDERSCORE") && rng.Intn(3) == 0 {
